@@ -7,7 +7,7 @@
     apply dft  bw [x]      -> ok [y]      `Channel.apply_modulation(x, bw)` through `dftWith` twice
     apply conv bw [x]      -> ok [y]      the same through `circConv` with the kernel idft(m)
     kernel bw n            -> ok [h]      the kernel idft(m) of length n (real part)
-    chmod filters rise pad keep bw [x]    -> err | ok [y]     `channelModulate`
+    chmod filters rise pad keep bw [x]    -> ok [y]           `channelModulate`
     trim tr start stop [mod]              -> ok [y]           `trimModulated`
     sample filters rise pad modulation extended durWithFall bw [amp] [det] [phase]
                                           -> err | ok [amp] [det] [phase]   `sampleChannel`
@@ -115,9 +115,7 @@ def handle (toks : List String) : String :=
   | ["chmod", f, rise, pad, keep, bw, x] =>
     match parseBool? f, parseNat? rise, parseNat? pad, parseBool? keep, parseFloat? bw, parseFloats? x with
     | some f, some rise, some pad, some keep, some bw, some x =>
-      match channelModulate (applyDft bw) ⟨f, rise, pad⟩ x keep with
-      | some y => "ok " ++ showFloats y
-      | none => "err"
+      "ok " ++ showFloats (channelModulate (applyDft bw) ⟨f, rise, pad⟩ x keep)
     | _, _, _, _, _, _ => "bad request"
   | ["trim", tr, a, b, m] =>
     match parseNat? tr, parseNat? a, parseNat? b, parseFloats? m with
